@@ -30,6 +30,17 @@ expanded row / which bin).  The harness compares
     (theorems compaction_check_sound, compact_is_consistent: valid indices, every stored point in a pair, every pair
     still names its original point, every collocated point stored once) and expand = the pairs of a brute-force
     search carrying the original data.
+  * CONCATENATED results of Collocator.collocate (directed, seed-independent: two and three dense results with 120-200
+    stored points per group each, so that the running total of stored points passes 255 while every part stays below
+    256; one case passing 65535): expand(concat_collocations(parts)) = expand(part 1) ++ expand(part 2) ++ ... row by
+    row and variable by variable, the concatenation holds valid indices and every stored point takes part in a pair
+    (compact_okb on the real pair rows).  The model's indices are unbounded naturals (theorems concat_width_is_mod,
+    concat_fits_width_iff: arithmetic in an integer type of W values is harmless exactly when the running totals fit);
+    the machine integer width of Collocations/pairs is covered by these cases, its dtype is recorded (pairs_dtype),
+  * every third dataset carries a variable p = offset + spread * noise with |offset| / spread in {1e5, 1e7, 1e9}
+    (pressure 101325 Pa, epoch-like -1.6e9 s, 250 K), incl. plateaus and constant data (bins whose values are all equal:
+    std exactly 0): <var>_mean / <var>_std against long-double statistics of the float64 values handed over, with the
+    error bound of the two-pass algorithm as tolerance (see HC_* below),
 Only what the property fixes is compared: rows are matched through the per-pair tag and the id variables,
 not by position, and the stored order of the compaction is not compared (only the certified invariant).
 Because the model provably equals the specification whenever the pair rows satisfy the invariant
@@ -55,6 +66,11 @@ TRUSTED = [
     "Collocator.collocate: the pair search itself is C04's business; here only the compaction of the raw pairs it found (read by wrapping _create_return from outside) is tied; "
     "for the sparse track / station cases the expected pairs are additionally found by brute force in the harness (haversine distance < 30 km, |dt| < 2 h; the geometry "
     "keeps every decision at least 5 km / 8 min away from the thresholds)",
+    "machine integers: the model's pair indices are naturals; that the integer type the code stores Collocations/pairs in is wide enough for the shifted "
+    "indices of concat_collocations is tied by the directed concatenations of collocate results passing 255 / 65535 stored points (theorem concat_fits_width_iff "
+    "says what a narrower type would do); the 65535 case (66000 pairs) is judged by the same law evaluated with numpy, not inside Coq (the certified checker is quadratic)",
+    "high-conditioning variable p: reference statistics in x87 long double (64-bit significand) over the float64 values handed over; tolerance = 8 x the error bound of the "
+    "two-pass algorithm (documented at HC_RATIOS)",
     "numpy views: that `m[k]` aliases the matrix handed to a custom collapser is a fact about numpy the model does not contain (Gallina values cannot alias); "
     "the theorem collapse_custom_function states the result per variable, the harness observes all variables after all calls",
 ]
@@ -153,9 +169,59 @@ def gen_layout(rng):
     return lay
 
 
+# ---- HIGH-CONDITIONING variable p (every third dataset, chosen by the case number: no random number of ctx.rng is drawn,
+# the older variables of every case are what they were).  p = offset + spread * q with |offset| / spread = ratio:
+#   shape noise / noise2d: q ~ N(0, 1) (noise2d: an extra dimension of two lanes, lane 1 = offset - 3 spread q'), some NaNs,
+#   plateau: q in {1/3, 4/3} (P(1/3) = 0.8): many bins whose values are all equal,   const: q = 1/3 (every bin: std exactly 0).
+# Tolerance.  The NaN-ignoring standard deviation the property names is computed by the code in binary64 with the TWO-PASS
+# algorithm (np.nanstd: m = nanmean(x), sqrt(nanmean(|x - m|^2))).  For a bin of n values of magnitude <= M (eps = 2^-52):
+#   * the computed mean is m + d, |d| <= n eps/2 M (n - 1 additions of partial sums <= n M, one division);
+#   * x_i - (m + d) is exact (x_i and the mean agree within a factor 2, Sterbenz), so every deviation is off by the same d;
+#     mean((x_i - m - d)^2) = var + d^2 (the cross term vanishes) up to n + 2 roundings, hence
+#     |std_computed - std| <= min(|d|, d^2 / (2 std)) + (n + 4) eps std  <=  n eps/2 M + (n + 4) eps std,
+#     relative to the spread: about n/2 * eps * offset/spread  (1e-10 for 1e5 .. 3e-7 for 1e9 with n = 3).
+#   The single-pass formula sqrt(E[x^2] - E[x]^2) is off by about eps M^2 / (2 std), relative to the spread
+#   eps/2 * (offset/spread)^2 = 1e-6 (1e5), 1e-2 (1e7), > 1 (1e9), and gives sqrt(eps) M instead of 0 for equal values.
+# Tolerance used (mean and std): 4 * (n eps M + (n + 4) eps std_ref), i.e. 8 x the bound; the reference is computed in
+# long double (eps 1.1e-19) on the float64 values actually handed over; equal values give exactly their value and 0.
+HC_RATIOS = [1e5, 1e7, 1e9]
+HC_OFFSETS = [101325.0, -1.6e9, 250.0]          # below UBASE: the matrices of u are recognised by their values >= UBASE
+HC_SHAPES = ["noise", "noise2d", "plateau", "const"]
+EPS = 2.0 ** -52
+
+
+def hc_for(k):
+    if k % 3:
+        return None
+    j = k // 3
+    return {"offset": HC_OFFSETS[j % 3], "ratio": HC_RATIOS[(j // 3) % 3], "shape": HC_SHAPES[(j // 9) % 4]}
+
+
+def hc_values(n, g, lay):
+    """the variable p of group g (its own random stream: the draws of the other variables do not move)"""
+    hc = lay["hc"]
+    prng = np.random.default_rng([lay["dseed"], 977, g, n])
+    off, spread = hc["offset"], abs(hc["offset"]) / hc["ratio"]
+    # (plateau / const levels at thirds of the spread: values without trailing zero bits, so that squares and sums round)
+    if hc["shape"] == "const":
+        return ["P"], np.full(n, off + spread / 3.0)
+    if hc["shape"] == "plateau":
+        return ["P"], off + spread * ((prng.random(n) < 0.2).astype(float) + 1.0 / 3.0)
+    if hc["shape"] == "noise2d":
+        p = np.stack([off + spread * prng.normal(0, 1, n), off - 3 * spread * prng.normal(0, 1, n)], axis=1)
+        dims = ["P", "q0"]
+    else:
+        p = off + spread * prng.normal(0, 1, n)
+        dims = ["P"]
+    if lay["nan"] > 0:
+        p[prng.random(p.shape) < 0.1] = np.nan
+    return dims, p
+
+
 def gen_ds_case(rng, k, big=False):
     n_p, n_s, pr, sr, style = gen_pairs(rng, big)
     lay = gen_layout(rng)
+    lay["hc"] = hc_for(k)
     if big:
         lay["u_extra"] = [rng.choice([[], [2]]), rng.choice([[], [2]])]
     ref = rng.choice([None, None, 0, 1, 1])
@@ -179,9 +245,11 @@ def gen_concat_case(rng, k):
 
 
 def gen_collocate_case(rng, k):
-    return {"id": k, "kind": "col", "cseed": rng.randrange(1 << 30), "n_p": rng.randint(1, 14), "n_s": rng.randint(1, 18),
-            "clusters": rng.randint(1, 5), "mode": rng.choice(["both", "both", "space", "space"]),
-            "late": rng.choice([0.0, 0.0, 0.2, 0.4]), "layout": gen_layout(rng)}
+    c = {"id": k, "kind": "col", "cseed": rng.randrange(1 << 30), "n_p": rng.randint(1, 14), "n_s": rng.randint(1, 18),
+         "clusters": rng.randint(1, 5), "mode": rng.choice(["both", "both", "space", "space"]),
+         "late": rng.choice([0.0, 0.0, 0.2, 0.4]), "layout": gen_layout(rng)}
+    c["layout"]["hc"] = hc_for(k)
+    return c
 
 
 def track_position(k, n):
@@ -220,11 +288,13 @@ def gen_sparse_case(rng, k, directed=None):
         mode = rng.choice(["both", "space"])
         late = [j for j in range(len(at)) if mode == "both" and rng.random() < 0.1]
     n_st = len(at)
-    return {"id": k, "kind": "col", "cseed": rng.randrange(1 << 30), "mode": mode, "late": 0.0, "clusters": 0,
-            "n_p": n_track if role == "long_primary" else n_st, "n_s": n_st if role == "long_primary" else n_track,
-            "sparse": {"n_track": n_track, "at": at, "role": role, "grid": grid, "late": late,
-                       "time_reversed": directed is None and rng.random() < 0.2},
-            "layout": gen_layout(rng)}
+    c = {"id": k, "kind": "col", "cseed": rng.randrange(1 << 30), "mode": mode, "late": 0.0, "clusters": 0,
+         "n_p": n_track if role == "long_primary" else n_st, "n_s": n_st if role == "long_primary" else n_track,
+         "sparse": {"n_track": n_track, "at": at, "role": role, "grid": grid, "late": late,
+                    "time_reversed": directed is None and rng.random() < 0.2},
+         "layout": gen_layout(rng)}
+    c["layout"]["hc"] = hc_for(k)
+    return c
 
 
 # directed (seed-independent) sparse cases: (track length, track point of station j in station order, role, grid, mode)
@@ -238,6 +308,56 @@ SPARSE_DIRECTED = [
     (900, [880, 700, 880, 850, 600], "long_primary", 0, "space"),          # two stations at one track point
     (2000, [1999, 1000, 1500, 1001], "long_secondary", 0, "both"),
 ]
+
+
+# directed (seed-independent) CONCATENATIONS of results of Collocator.collocate: per part (primaries, secondaries, sites).
+# A part is a dense cloud: `sites` places 0.5 deg x 1 deg apart, every site holds at least one point of either group, all
+# points of a site collocate with each other (many-to-many) and with nothing else; so every point is stored and a part has
+# exactly the given numbers of stored points per group.  Every part alone has fewer than 256 (65536) stored points per
+# group, the running total passes 255 (65535) in the second or third part: what an integer type chosen per part would
+# no longer hold after the shift by the sizes of the earlier parts.
+CCOL_DIRECTED = [
+    ([(150, 180, 140), (130, 200, 125)], "both"),
+    ([(120, 135, 110), (140, 125, 118), (125, 150, 120)], "space"),
+    ([(200, 200, 190), (60, 60, 50)], "both"),
+    ([(33000, 33000, 33000), (33000, 33000, 33000)], "space"),      # passes 65535: judged with numpy (66000 pairs)
+]
+CCOL_COQ_LIMIT = 1500         # pairs up to which the certified checkers are evaluated inside Coq (they are quadratic)
+
+
+def gen_ccol_case(k, parts, mode):
+    rng = __import__("random").Random(f"C13 ccol {k}")
+    lay = gen_layout(rng)
+    lay["hc"] = hc_for(k)
+    if max(n for part in parts for n in part) > 1000:
+        lay["u_extra"], lay["w_extra"] = [[], [2]], [[], []]
+    return {"id": k, "kind": "ccol", "cseed": rng.randrange(1 << 30), "mode": mode, "layout": lay,
+            "parts": [{"n_p": a, "n_s": b, "sites": m} for a, b, m in parts]}
+
+
+def build_cloud(c, j):
+    """the two input datasets of part j of a ccol case"""
+    import xarray as xr
+    part, lay = c["parts"][j], c["layout"]
+    nrng = np.random.default_rng([c["cseed"], 13, j])
+    m = part["sites"]
+    big = max(part["n_p"], part["n_s"]) > 1000
+    base = 100000 if big else 250            # ids unique over all parts and groups (small: unary numbers in Coq)
+    site = np.arange(m)
+    slat, slon = -60.0 + 0.5 * (site // 360), -180.0 + 1.0 * (site % 360)
+    out = []
+    for g, n in ((0, part["n_p"]), (1, part["n_s"])):
+        at = np.concatenate([np.arange(min(n, m)), nrng.integers(0, m, size=max(0, n - m))])[nrng.permutation(n)]
+        gv = group_vars(n, g, lay, base * (2 * j + g), nrng)
+        gv.pop("freq", None)
+        ds = xr.Dataset()
+        for v, (dims, arr) in gv.items():
+            ds[v] = ([("t" if d == "P" else d) for d in dims], arr)
+        ds["time"] = ("t", np.datetime64("2001-01-01") + nrng.integers(0, 1800, size=n).astype("m8[s]"))
+        ds["lat"] = ("t", slat[at] + nrng.uniform(-0.01, 0.01, n))
+        ds["lon"] = ("t", slon[at] + nrng.uniform(-0.01, 0.01, n))
+        out.append(ds)
+    return out
 
 
 # ----------------------------------------------------------------------------- building datasets
@@ -274,6 +394,8 @@ def group_vars(n, g, lay, idbase, nrng):
     }
     if lay["static"]:
         out["freq"] = (["x0"] if ue else ["z"], np.arange(ue[0] if ue else 2, dtype=float))
+    if lay.get("hc"):
+        out["p"] = hc_values(n, g, lay)
     return out
 
 
@@ -413,7 +535,7 @@ def observe_collapse(ds, names, ref):
         for v in ("time", "lat", "lon"):
             if v not in out or not same(out[v].values, ds[f"{refname}/{v}"].values):
                 o["root"] = f"root variable {v} is not the reference's {v}"
-        for v in VIEW_VARS:
+        for v in VIEW_VARS + (("p",) if f"{other}/p" in ds else ()):
             st = {}
             for f in ("mean", "std", "number", "rec") + tuple(VIEWS):
                 name = f"{other}/{v}_{f}"
@@ -553,6 +675,54 @@ def close(a, b, scale):
         return False
     with np.errstate(all="ignore"):
         return bool((np.abs(a - b)[~na] <= TOL * scale).all())
+
+
+def judge_hc(ctx, case, label, o, src, plist, other_ids):
+    """<other>/p_mean, _std, _number of one collapse call against long-double statistics over the partner points Coq names
+    (plist[r] = partner points of output row r); tolerance: see HC_RATIOS"""
+    st = o["stats"]["p"]
+    n_ref = len(plist)
+    hc = case.get("layout", {}).get("hc") or {}
+    for f in ("mean", "std", "number"):
+        if st.get(f) is None or st[f].shape[0] != n_ref:
+            ctx.fail("failing-input", f"{label}: collapse(reference={o['ref']}) returned no usable {o['other']}/p_{f}",
+                     case=case, signature="collapse-missing")
+            return
+    for r in range(n_ref):
+        part = src[plist[r]] if plist[r] else src[:0]
+        want = stats_ld(part)
+        flat = part.reshape(part.shape[0], -1)
+        with np.errstate(all="ignore"), warnings.catch_warnings():
+            warnings.simplefilter("ignore")
+            big = np.nan_to_num(np.nanmax(np.abs(flat), axis=0), nan=0.0).reshape(part.shape[1:])
+            equal = (np.nanmax(flat, axis=0) == np.nanmin(flat, axis=0)).reshape(part.shape[1:])
+        n = np.asarray(want["number"], dtype=float)
+        sd = np.nan_to_num(np.asarray(want["std"], dtype=float), nan=0.0)
+        tol = 4.0 * (n * EPS * big + (n + 4) * EPS * sd)
+        if not np.array_equal(np.asarray(st["number"][r]), np.asarray(want["number"])):
+            ctx.fail("failing-input", f"{label}: collapse(reference={o['ref']}): {o['other']}/p_number of reference point "
+                     f"{o['ref_ids'][r]} is {np.asarray(st['number'][r]).tolist()}, its partner points hold "
+                     f"{np.asarray(want['number']).tolist()} values that are not NaN", case=case, signature="collapse-number")
+            return
+        for f in ("mean", "std"):
+            got = np.asarray(st[f][r], dtype=np.longdouble)
+            ref = np.asarray(want[f], dtype=np.longdouble)
+            if f == "std":
+                ref = np.where(equal & (n > 0), np.longdouble(0), ref)     # all values equal: exactly 0
+            with np.errstate(all="ignore"):
+                bad = (np.isnan(got) != np.isnan(ref)) | (np.abs(got - ref) > tol)
+                bad &= ~(np.isnan(got) & np.isnan(ref))
+            if got.shape != ref.shape or bad.any():
+                vals = [float(x) for x in flat[:, 0][:6]]
+                ctx.fail("failing-input", f"{label}: collapse(reference={o['ref']}): {o['other']}/p_{f} of reference point "
+                         f"{o['ref_ids'][r]} is {np.asarray(got, dtype=float).tolist()!r}; the NaN-ignoring {f} over the values "
+                         f"{vals!r}{'...' if flat.shape[0] > 6 else ''} of its partner points "
+                         f"{[other_ids[j] for j in plist[r]][:8]} is {np.asarray(ref, dtype=float).tolist()!r} "
+                         f"(p = {hc.get('offset')} + {abs(hc.get('offset', 0)) / hc.get('ratio', 1):g} * {hc.get('shape')}; "
+                         f"tolerance {np.asarray(tol).max():.3g} = 8 x the error bound of the two-pass algorithm in binary64)",
+                         case=case, impl=np.asarray(got, dtype=float).tolist(), model=np.asarray(ref, dtype=float).tolist(),
+                         signature=f"collapse-{f}-conditioning")
+                return
 
 
 # ----------------------------------------------------------------------------- judging one dataset
@@ -754,6 +924,10 @@ def judge_dataset(ctx, case, ds, names, obs, val, label):
                     break
             if done:
                 break
+        # the high-conditioning variable p (every third dataset): mean and std within the error bound of the two-pass
+        # algorithm (see HC_RATIOS), number exactly, NaN-ness exactly; bins whose values are all equal: std exactly 0
+        if "p" in arrs and "p" in o["stats"]:
+            judge_hc(ctx, case, label, o, arrs["p"].astype(float), [cols_spec[rowpos[r]] for r in range(n_ref)], other_ids)
     mult_p = [pr.count(i) for i in set(pr)] if len(pr) < 400 else [2, 1]
     mult_s = [sr.count(i) for i in set(sr)] if len(sr) < 400 else [2, 1]
     return (max(mult_p) >= 2 and len(set(mult_p)) > 1) or (max(mult_s) >= 2 and len(set(mult_s)) > 1)
@@ -801,6 +975,8 @@ def check_concat_cases(ctx, cases):
             with warnings.catch_warnings():
                 warnings.simplefilter("ignore")
                 cat = concat_collocations(lst)
+            dts = ctx.cov.setdefault("pairs_dtype", {"collocate_results": {}, "concatenations": {}})["concatenations"]
+            dts[str(cat["Collocations/pairs"].dtype)] = dts.get(str(cat["Collocations/pairs"].dtype), 0) + 1
             o["pairs"] = cat["Collocations/pairs"].values.astype(int).tolist()
             o["sizes"] = [int(cat.sizes[f"{names[0]}/collocation"]), int(cat.sizes[f"{names[1]}/collocation"])]
             o["groups"] = [str(x) for x in cat["Collocations/group"].values]
@@ -1075,6 +1251,8 @@ def check_collocate_cases(ctx, cases, tag=""):
             built.append(None)
             continue
         raw = rec["raw"]
+        dts = ctx.cov.setdefault("pairs_dtype", {"collocate_results": {}, "concatenations": {}})["collocate_results"]
+        dts[str(r["Collocations/pairs"].dtype)] = dts.get(str(r["Collocations/pairs"].dtype), 0) + 1
         out_pairs = r["Collocations/pairs"].values.astype(int)
         # Collocations/interval becomes the per-pair tag by which expanded rows are matched
         r["Collocations/interval"] = ("Collocations/collocation", np.arange(out_pairs.shape[1], dtype=float))
@@ -1155,6 +1333,193 @@ def check_collocate_cases(ctx, cases, tag=""):
     return len(nontrivial)
 
 
+# ----------------------------------------------------------------------------- concat of collocate results
+
+def expanded_table(ex, names):
+    """rows of an expanded dataset sorted by the per-pair tag: (tags, {variable: array with the row axis first})"""
+    tags = np.asarray(ex["Collocations/interval"].values, dtype=float)
+    order = np.argsort(tags, kind="stable")
+    tab = {}
+    for name, var in ex.variables.items():
+        name = str(name)
+        if "collocation" in var.dims and name.split("/")[0] in names:
+            tab[name] = np.moveaxis(np.asarray(var.values), var.dims.index("collocation"), 0)[order]
+    return tags[order], tab
+
+
+def np_compact_ok(pairs, sizes):
+    """compact_ok evaluated with numpy (only for the case that is too big for the certified checker)"""
+    pairs = np.asarray(pairs)
+    if pairs.ndim != 2 or pairs.shape[0] != 2:
+        return False
+    for row, n in zip(pairs.astype(np.int64), sizes):
+        if row.size and (row.min() < 0 or row.max() >= n):
+            return False
+        if np.unique(row).size != n:
+            return False
+    return True
+
+
+def check_ccol_cases(ctx, cases):
+    from typhon.collocations import Collocator, expand
+    from typhon.collocations.collocator import concat_collocations
+    dtypes = ctx.cov.setdefault("pairs_dtype", {"collocate_results": {}, "concatenations": {}})
+    exprs, built = [], []
+    for c in cases:
+        names = c["layout"]["names"]
+        kw = {"max_distance": "30 km"}
+        if c["mode"] == "both":
+            kw["max_interval"] = "2h"
+        o = {"parts": [], "harness": None}
+        built.append(o)
+        tagbase = 0
+        for j in range(len(c["parts"])):
+            P, S = build_cloud(c, j)
+            try:
+                with warnings.catch_warnings():
+                    warnings.simplefilter("ignore")
+                    np.random.seed(c["cseed"] % (2 ** 31))
+                    r = Collocator().collocate((names[0], P), (names[1], S), **kw)
+            except Exception as e:  # noqa
+                o["harness"] = f"Collocator.collocate raised {err(e)}"
+                break
+            if r is None or "Collocations/pairs" not in getattr(r, "variables", {}):
+                o["harness"] = "Collocator.collocate found nothing"
+                break
+            dt = str(r["Collocations/pairs"].dtype)
+            dtypes["collocate_results"][dt] = dtypes["collocate_results"].get(dt, 0) + 1
+            npairs = int(r["Collocations/pairs"].shape[1])
+            r["Collocations/interval"] = ("Collocations/collocation", np.arange(npairs, dtype=float) + tagbase)
+            tagbase += npairs
+            o["parts"].append(r)
+        if o["harness"]:
+            continue
+        parts = o["parts"]
+        o["sizes"] = [[int(r.sizes[f"{g}/collocation"]) for g in names] for r in parts]
+        o["pairs_in"] = [r["Collocations/pairs"].values.astype(np.int64) for r in parts]
+        o["ids"] = [[[int(i) for i in r[f"{g}/id"].values] for g in names] for r in parts]
+        o["npairs"] = sum(x.shape[1] for x in o["pairs_in"])
+        # the oracle is computed BEFORE the concatenation, from deep copies of the single parts
+        try:
+            o["expect"] = [expanded_table(expand(r.copy(deep=True)), names) for r in parts]
+        except Exception as e:  # noqa
+            o["expect"] = err(e)
+        try:
+            with warnings.catch_warnings():
+                warnings.simplefilter("ignore")
+                cat = concat_collocations([r.copy(deep=True) for r in parts])
+            dt = str(cat["Collocations/pairs"].dtype)
+            dtypes["concatenations"][dt] = dtypes["concatenations"].get(dt, 0) + 1
+            o["cat_pairs"] = cat["Collocations/pairs"].values.astype(np.int64)
+            o["cat_sizes"] = [int(cat.sizes[f"{g}/collocation"]) for g in names]
+            o["groups"] = [str(x) for x in cat["Collocations/group"].values]
+            try:
+                o["got"] = expanded_table(expand(cat.copy(deep=True)), names)
+            except Exception as e:  # noqa
+                o["got"] = err(e)
+        except Exception as e:  # noqa
+            o["error"] = err(e)
+        if o["npairs"] <= CCOL_COQ_LIMIT:
+            dsl = coq_list([f"mk_ids {zlist(pin[0])} {zlist(pin[1])} {zlist(ids[0])} {zlist(ids[1])}"
+                            for pin, ids in zip(o["pairs_in"], o["ids"])])
+            cat_ok = "true"
+            if "cat_pairs" in o:
+                cat_ok = (f"compact_okb (ids_cds {zlit(o['cat_sizes'][0])} {zlit(o['cat_sizes'][1])} "
+                          f"{zlist(o['cat_pairs'][0])} {zlist(o['cat_pairs'][1])})")
+            exprs.append((len(built) - 1, f"(run_concat {dsl}, [{cat_ok}])"))
+    vals, log = core.coq_eval(ctx.work / "cases", "ccol", PREAMBLE, [e for _, e in exprs], shard=1, timeout=600)
+    if log:
+        ctx.log(log[-2000:])
+    coqval = {bi: v for (bi, _), v in zip(exprs, vals)}
+    nontrivial = set()
+    for bi, (c, o) in enumerate(zip(cases, built)):
+        ctx.cov["evaluations"] += 1
+        names = c["layout"]["names"]
+        if o["harness"]:
+            ctx.fail("correspondence", f"directed concat-of-collocate case: {o['harness']} (the search is C04's business)", case=c,
+                     signature="harness-collocate")
+            continue
+        sizes = o["sizes"]
+        desc = (f"concat_collocations of {len(sizes)} results of Collocator.collocate with {[x[0] for x in sizes]} / "
+                f"{[x[1] for x in sizes]} stored points")
+        in_coq = bi in coqval
+        if in_coq:
+            v = coqval[bi]
+            if v is None:
+                ctx.fail("correspondence", "Coq evaluation of run_concat failed", case=c, signature="coq-eval")
+                continue
+            okb, ex_model, ex_spec, (mp, ms), (cat_ok,) = v
+            if okb and ex_model != ex_spec:
+                ctx.fail("proof", "expand(concat_c ds) and concat(map expand ds) disagree inside Coq", case=c,
+                         signature="model-vs-spec")
+        else:
+            okb = all(np_compact_ok(pin, sz) for pin, sz in zip(o["pairs_in"], sizes))
+            ex_spec = None
+            cat_ok = np_compact_ok(o["cat_pairs"], o["cat_sizes"]) if "cat_pairs" in o else True
+        if not okb:
+            ctx.fail("failing-input", f"{desc}: a single result does not satisfy compact_ok (valid indices, every stored point in "
+                     f"a pair): pairs {[x[:, :8].tolist() for x in o['pairs_in']]}", case=c, signature="compaction-invalid")
+            continue
+        if isinstance(o["expect"], str):
+            ctx.fail("failing-input", f"expand of a result of Collocator.collocate raised {o['expect']}", case=c,
+                     signature="expand-error")
+            continue
+        # expand of the single parts is what the specification says (ids named by Coq), in pair order
+        if ex_spec is not None:
+            got_ids = [[int(a), int(b)] for tags, tab in o["expect"]
+                       for a, b in zip(tab[f"{names[0]}/id"], tab[f"{names[1]}/id"])]
+            if got_ids != [list(x) for x in ex_spec]:
+                ctx.fail("failing-input", f"{desc}: expand of the single results differs from the specification", case=c,
+                         impl=got_ids[:40], model=ex_spec[:40], signature="expand-rows")
+                continue
+        if "error" in o:
+            ctx.fail("failing-input", f"{desc} raised {o['error']}", case=c, impl=o["error"], signature="concat-error")
+            continue
+        if not cat_ok:
+            used = [int(np.unique(row).size) for row in o["cat_pairs"]]
+            ctx.fail("failing-input", f"{desc}: in the concatenation only {used} of the {o['cat_sizes']} stored points take part in "
+                     f"a pair, or Collocations/pairs holds invalid indices (largest indices {o['cat_pairs'].max(axis=1).tolist()}); "
+                     f"every single result is compact", case=c, impl=used, model=o["cat_sizes"], signature="concat-collocate-invalid")
+        if isinstance(o["got"], str):
+            ctx.fail("failing-input", f"expand({desc}) raised {o['got']}", case=c, impl=o["got"], signature="concat-collocate-expand")
+            continue
+        want_tags = np.concatenate([t for t, _ in o["expect"]])
+        tags, tab = o["got"]
+        if tags.shape != want_tags.shape or not np.array_equal(tags, want_tags):
+            ctx.fail("failing-input", f"expand({desc}) has {tags.size} rows, the expanded single results have {want_tags.size} "
+                     f"(or the per-pair variables differ)", case=c, impl=int(tags.size), model=int(want_tags.size),
+                     signature="concat-collocate-expand")
+            continue
+        for name in sorted(o["expect"][0][1]):
+            want = np.concatenate([t[name] for _, t in o["expect"]])
+            if name not in tab or not same(tab[name], want):
+                rows = "?"
+                first = ""
+                if name in tab and tab[name].shape == want.shape:
+                    g, w = tab[name].reshape(want.shape[0], -1), want.reshape(want.shape[0], -1)
+                    eq = (g == w) | ((g != g) & (w != w)) if g.dtype.kind == "f" else (g == w)
+                    wrong = np.nonzero(~eq.all(axis=1))[0]
+                    rows = int(wrong.size)
+                    k0 = int(wrong[0])
+                    j = int(np.searchsorted(np.cumsum([x.shape[1] for x in o["pairs_in"]]), k0, side="right"))
+                    before = [sum(x[q] for x in sizes[:j]) for q in (0, 1)]
+                    first = (f"; first wrong row {k0} (part {j + 1}): {g[k0][:3].tolist()}, expected {w[k0][:3].tolist()}; "
+                             f"Collocations/pairs of that row {o['cat_pairs'][:, k0].tolist()}, stored points before its part {before}")
+                ctx.fail("failing-input", f"expand({desc}): {rows} of {want.shape[0]} rows of {name} differ from expand(part 1) ++ "
+                         f"expand(part 2) ...{first}"[:900], case=c, signature="concat-collocate-expand")
+                break
+        else:
+            if o["groups"] != names:
+                ctx.fail("failing-input", f"{desc}: Collocations/group is {o['groups']}", case=c, signature="concat-group")
+        nontrivial.add(repr(sizes))
+        ctx.sample({"concat_of_collocate_results": sizes, "pairs": o["npairs"], "evaluated_in_coq": in_coq,
+                    "largest_pair_index": o["cat_pairs"].max(axis=1).tolist() if "cat_pairs" in o else None}, limit=12)
+    ctx.cov.setdefault("concat_of_collocate", {}).update(
+        {"cases": len(cases), "evaluated_in_coq": len(exprs),
+         "stored_points_per_part": [o.get("sizes") for o in built]})
+    return len(nontrivial)
+
+
 # ----------------------------------------------------------------------------- check
 
 def run(ctx):
@@ -1171,6 +1536,8 @@ def run(ctx):
     n_sp = ctx.n(16, 240)
     sp_cases = [gen_sparse_case(ctx.rng, 400000 + k, directed=d) for k, d in enumerate(SPARSE_DIRECTED)] \
         + [gen_sparse_case(ctx.rng, 410000 + k) for k in range(n_sp)]
+    # concatenated results of collocate passing 255 / 65535 stored points: directed only (no random number drawn)
+    ccol_cases = [gen_ccol_case(500000 + k, parts, mode) for k, (parts, mode) in enumerate(CCOL_DIRECTED)]
     a = check_ds_cases(ctx, ds_cases)
     ctx.log(f"datasets done ({n_ds})")
     b = check_ds_cases(ctx, big_cases, shard=1)
@@ -1180,21 +1547,30 @@ def run(ctx):
     d = check_collocate_cases(ctx, col_cases)
     ctx.log(f"collocate done ({n_col})")
     d += check_collocate_cases(ctx, sp_cases, tag="sp")
+    d += check_ccol_cases(ctx, ccol_cases)
+    ctx.log(f"concat of collocate results done ({len(ccol_cases)})")
     ctx.cov["distinct_nontrivial"] = a + b + c + d
     ctx.cov["rule"] = ("harness-built compact datasets (1-1300 pairs; one-to-many, many-to-one, identity, full, skewed and random "
                        "multiplicities; shuffled / sorted pair order; arbitrary point numbering; variables with 0-2 extra "
                        "dimensions, transposed layout, NaNs incl. all-NaN points, integer data; default and named reference; a "
                        "custom collapser, view-returning custom collapsers first / last / middle slot on five variables per group (two scalar, two of one extra-dimension shape), a custom function overriding std, the pair list rearranged), lists of 1-4 datasets for concat (incl. the same dataset listed twice) and results "
                        "of Collocator.collocate on clustered points and on sparse, unordered track / station geometries (8 directed + random: 300-3000 track points, 3-12 stations, "
-                       "both roles, flat and gridded); a dataset is non-trivial when some point has >= 2 partners "
+                       "both roles, flat and gridded) and directed concatenations of two / three dense results of collocate (120-200 stored points per group and part, running total "
+                       "past 255; one case of 2 x 33000 points past 65535); every third dataset carries the high-conditioning variable p (|offset| / spread 1e5, 1e7, 1e9; "
+                       "noise, two lanes, plateaus, constant); a dataset is non-trivial when some point has >= 2 partners "
                        "and the multiplicities are not all equal, a concat case when it has >= 2 entries and a repeated "
-                       "primary, a collocate case when a point occurs in >= 2 raw pairs; distinct by input")
+                       "primary, a collocate case when a point occurs in >= 2 raw pairs, every directed concat-of-collocate case; distinct by input")
     styles = {}
     for x in ds_cases + big_cases:
         styles[x["style"]] = styles.get(x["style"], 0) + 1
     ctx.cov["input_distribution"] = {
         "datasets": n_ds, "datasets_with_1000+_pairs": n_big, "concat_cases": n_cc, "collocate_cases": n_col,
         "sparse_collocate_cases": len(sp_cases), "sparse_directed": len(SPARSE_DIRECTED),
+        "concat_of_collocate_directed": len(ccol_cases),
+        "datasets_with_high_conditioning_variable": sum(1 for x in ds_cases + big_cases + col_cases + sp_cases + ccol_cases
+                                                        if x["layout"].get("hc")),
+        "high_conditioning": {"offset_over_spread": HC_RATIOS, "offsets": HC_OFFSETS, "shapes": HC_SHAPES,
+                              "share": "case number divisible by 3 (seed-independent)"},
         "styles": styles, "numba_available": bool(getattr(cm, "_has_numba", False)),
         "row_assignment_variant_exercised": "numba" if getattr(cm, "_has_numba", False) else "pure Python (also for >= 1000 pairs)",
         "pairs_per_dataset": {"min": min(len(x["pairs"][0]) for x in ds_cases + big_cases),
@@ -1213,6 +1589,11 @@ def run(ctx):
         "through a view) is tied by the view-returning collapsers on datasets with several variables of one shape",
         "compaction_check_sound: its hypothesis (the three verdicts of check_compaction are true) is evaluated per collocate case inside Coq; "
         "a false verdict is reported as a failing input",
+        "concat theorems: indices are unbounded naturals; concat_fits_width_iff / expand_concat_any_width: the same holds in an integer type of W values "
+        "iff the total numbers of stored points are <= W (W = 2^63 for the int64 the code uses; hypotheses compact_ok of the parts certified per case by compact_okb "
+        "up to 1500 pairs, evaluated with numpy for the 66000-pair case); the dtype actually met is recorded in coverage.pairs_dtype",
+        "<var>_std / <var>_mean of the high-conditioning variable p: tolerance 4 (n eps M + (n + 4) eps std) per bin of n values of magnitude M, eight times the "
+        "error bound of the two-pass algorithm in binary64 (derivation in the comment above HC_RATIOS); bins whose values are all equal: expected std exactly 0, mean the value",
         "collapse_call_independent is a statement about the model (a call is a function of dataset, reference and custom "
         "functions); that the code keeps no state between calls is tied by the call histories (custom `rec`, custom `std`, "
         "plain, rearranged pairs, then the other reference) run on every dataset",
@@ -1231,6 +1612,8 @@ def replay(ctx, rec):
         check_concat_cases(ctx, [case])
     elif kind == "col":
         check_collocate_cases(ctx, [case])
+    elif kind == "ccol":
+        check_ccol_cases(ctx, [case])
     else:
         print("unknown case kind", kind)
         return 2
